@@ -140,14 +140,15 @@ func (i *InvalidationIndex) invalidateByLabels(ctx context.Context, labeledKeys 
 
 			for label, keys := range cutKeys {
 				// Cut keys already deleted in other labels.
-				for j, k := range keys {
-					if deleted[k] {
-						keys[j] = keys[len(keys)-1]
-						keys = keys[:len(keys)-1]
+				unprocessed := make([]string, 0, len(keys))
+
+				for _, k := range keys {
+					if !deleted[k] {
+						unprocessed = append(unprocessed, k)
 					}
 				}
 
-				labeledKeys[label] = append(labeledKeys[label], keys...)
+				labeledKeys[label] = append(labeledKeys[label], unprocessed...)
 			}
 		}
 	}()
